@@ -214,6 +214,16 @@ theorem no_store_outside_the_buffer_any_sizes (cfg : Cfg) (d : DST) (A Lmax : Na
   have h := runOps_from_init cfg d A Lmax hcfg hsmall L p hL htg hsb ops hops hen
   exact ⟨h.nh, h.pkt, by rw [h.pkt]; exact h.at_, h.oc, fun hc => by rw [h.pkt]; exact h.cl rfl hc⟩
 
+/-- the stores of such a history, on the log: each lies inside the buffer that was current when it was made (the run
+    never halts, and a pass halts the run when one of its stores exceeds the current buffer), hence inside the first
+    `Lmax` bytes -/
+theorem every_store_inside_the_buffer_any_sizes (cfg : Cfg) (d : DST) (A Lmax : Nat) (hcfg : CfgOK A cfg d)
+    (hsmall : 8 * Lmax + A ≤ 2 ^ 32) (L : Nat) (p : Plat) (hL : GoodBuf cfg d A Lmax p.openArgs L)
+    (htg : p.toggles = []) (hsb : ∀ x ∈ p.setBufs, GoodBuf cfg d A Lmax p.openArgs x.2)
+    (ops : List Op) (hops : OpsSmall d Lmax A ops) (hen : NeverDisabled ops) (off n : Nat) (flag isOpen : Bool)
+    (h : Ev.store off n flag isOpen ∈ (runOps cfg d (.open_ :: ops) (rtInit L p)).log) : off + n ≤ Lmax :=
+  (runOps_from_init cfg d A Lmax hcfg hsmall L p hL htg hsb ops hops hen).stin _ h
+
 /-- while a packet is open, the offsets saved for the closing function's write-backs are inside the buffer -/
 theorem saved_offsets_inside_the_buffer (cfg : Cfg) (d : DST) (L A : Nat) (hcfg : CfgOK A cfg d)
     (hsmall : 8 * L + A ≤ 2 ^ 32) (p : Plat) (hsb : ∀ x ∈ p.setBufs, x.2 = L)
@@ -299,5 +309,6 @@ example : ((runOps c02Cfg c02Dst c02Ops (rtInit 16 { fullAnswers := [false, true
 #print axioms every_store_inside_the_buffer
 #print axioms no_store_outside_the_buffer_exec
 #print axioms no_store_outside_the_buffer_any_sizes
+#print axioms every_store_inside_the_buffer_any_sizes
 #print axioms saved_offsets_inside_the_buffer
 end BVM
